@@ -12,6 +12,7 @@ import (
 	"encoding/json"
 	"fmt"
 	"math"
+	"reflect"
 	"sync"
 	"testing"
 
@@ -193,8 +194,8 @@ func replayBalCase(c *vBalCase, id int, trace *verifkit.Out, stats map[string]in
 			p := stp.Pol
 			trace.Write(vBalEv{T: id, Ev: "cpicks", Pol: &p, Counts: counts, Errors: &errs})
 		case "wrap":
-			// nextIndex is a uint32 that is only ever incremented: move every counter to a value a few selections
-			// before 2^32 that is congruent to its present value modulo the queue length, so that the sequence of
+			// the selection counter is only ever incremented: move every counter to a value a few selections
+			// before 2^32 (where a 32-bit counter wraps) that is congruent to its present value modulo the queue length, so that the sequence of
 			// selections continues unchanged up to the wrap-around
 			for _, b := range []*balancer{db.GlobalBalancer, db.LocalBalancer, db.RemoteBalancer} {
 				if b != nil && len(b.roundRobinQ) > 1 {
@@ -202,7 +203,8 @@ func replayBalCase(c *vBalCase, id int, trace *verifkit.Out, stats map[string]in
 					old := uint64(b.nextIndex)
 					target := uint64(math.MaxUint32) - L/2 - 1
 					target -= (target - old%L) % L
-					b.nextIndex = uint32(target)
+					// (the counter was a uint32 before fix d8d2069 and is a uint64 now: set it without naming its type)
+					reflect.ValueOf(&b.nextIndex).Elem().SetUint(target)
 				}
 			}
 			wrapped = true
